@@ -248,3 +248,36 @@ func vhAdmissionLengths() {
 	vReach("encoded")
 	vSameBytes(ext.Value, vTLV(0x30, vCat(top, vTLV(0x30, vTLV(0x30, body)))), "admission extension value differs from Common PKI AdmissionSyntax at a DER length boundary")
 }
+
+// vhAdmissionErrors: C16, "exactly what was configured": when one member of
+// one admission cannot be encoded - a registration number outside
+// PrintableString, a naming authority URL that is not IA5, a profession OID
+// with a single arc or a first arc above 2 - in the first, the middle or the
+// last of three admissions, NewAdmission returns an error; it never returns an
+// extension from which the offending admission is silently missing.
+func vhAdmissionErrors() {
+	bad := vChoose("badAdmission", 3)
+	kind := vChoose("badMember", 4)
+	ad := Admission{}
+	for k := 0; k < 3; k++ {
+		pi := ProfessionInfo{ProfessionItems: []string{"item"}, RegistrationNumber: "r1"}
+		ax := Admissions{}
+		if k == bad {
+			switch kind {
+			case 0:
+				pi.RegistrationNumber = "A_1" // '_' is not a PrintableString character
+			case 1:
+				ax.NamingAuthority = NamingAuthority{URL: "http://exämple"} // not IA5
+			case 2:
+				pi.ProfessionOids = []asn1.ObjectIdentifier{{5}} // a single arc has no DER form
+			default:
+				pi.ProfessionOids = []asn1.ObjectIdentifier{{3, 1}} // first arc above 2
+			}
+		}
+		ax.ProfessionInfos = []ProfessionInfo{pi}
+		ad.Contents = append(ad.Contents, ax)
+	}
+	ext, err := NewAdmission(false, ad)
+	vReach("checked")
+	vAssert(err != nil || ext == nil, "an admission with a member that cannot be encoded was accepted (the extension would lack what was configured)")
+}
